@@ -417,12 +417,32 @@ inductive NameAct where
   | delete                              -- deleteWalFile completed
 deriving Repr
 
-/-- FlushMetricNames writes the .mnm file of the segment (O_CREATE, from offset 0) -/
+/-- FlushMetricNames writes the .mnm file of the segment: the file is rewritten WHOLE (O_CREATE|O_TRUNC since the repair
+c10-8; before it the new content was written from offset 0 over the old bytes, and a shorter content left the tail of the
+old file behind — bytes that the reader takes for further names or runs out of bounds on; the model has no bytes: a file
+is the list of its names) -/
 def writeMnm (seg : Nat) (ns : List Nat) : List (Nat × List Nat) → List (Nat × List Nat)
   | [] => [(seg, ns)]
   | (s, v) :: r => if s = seg then (seg, ns) :: r else (s, v) :: writeMnm seg ns r
 
+/-- the names in the .mnm file of a segment (none: no file) -/
+def mnmNamesOf (seg : Nat) : List (Nat × List Nat) → List Nat
+  | [] => []
+  | (s, v) :: r => if s = seg then v else mnmNamesOf seg r
+
+/-- the names of the file and, behind them, the WAL names that the file does not have (a Go map: no duplicates) -/
+def mergeNames (old new : List Nat) : List Nat := old ++ new.filter (fun n => !old.contains n)
+
+/-- RecoverMNameWALData per segment (repairs c10-5, c10-8): the names of the segment's name WAL AND of its .mnm file, if
+there is one (a segment rotation that died after FlushMetricNames left the complete file next to a WAL that may hold
+fewer names), are flushed; then the WAL is deleted -/
 def nameActions (seg : Nat) (nd : NameDisk) : List NameAct :=
+  match nd.wal with
+  | none => []
+  | some ns => (if ns.isEmpty then [] else [NameAct.flush seg (mergeNames (mnmNamesOf seg nd.mnm) ns)]) ++ [NameAct.delete]
+
+/-- … before the repair c10-8: only the WAL names were written (over the old file) -/
+def nameActionsNoMerge (seg : Nat) (nd : NameDisk) : List NameAct :=
   match nd.wal with
   | none => []
   | some ns => (if ns.isEmpty then [] else [NameAct.flush seg ns]) ++ [NameAct.delete]
@@ -438,6 +458,7 @@ def applyNameAct (nd : NameDisk) : NameAct → NameDisk
 
 /-- RecoverMNameWALData run to its end -/
 def recoverNames (seg : Nat) (nd : NameDisk) : NameDisk := (nameActions seg nd).foldl applyNameAct nd
+def recoverNamesNoMerge (seg : Nat) (nd : NameDisk) : NameDisk := (nameActionsNoMerge seg nd).foldl applyNameAct nd
 /-- … died right after its `m`-th step -/
 def recoverNamesCrashed (m seg : Nat) (nd : NameDisk) : NameDisk := ((nameActions seg nd).take m).foldl applyNameAct nd
 def recoverNamesCrashedOld (m seg : Nat) (nd : NameDisk) : NameDisk := ((nameActionsOld seg nd).take m).foldl applyNameAct nd
@@ -490,6 +511,34 @@ def rotateBlockCrashed (m : Nat) (st : WState) : WState :=
 are fewer steps) -/
 def blockRotateCrash (m : Nat) (st : WState) : WState :=
   if st.cur.isEmpty then st else rotateBlockCrashed m st
+
+/-- CheckAndRotate(false) of a segment over its size limit that dies inside rotateSegment, right after `m ≥ 1` of its
+steps whose completion is observable on disk (the block rotation in front of it has completed):
+  FlushMetricNames ; one DeleteWAL per datapoint-WAL file (cleanAndInitNewDpWal → deleteDpWalFiles, the files of the OLD
+  segment) ; initNewDpWal (the first WAL file of the NEW segment) ; DeleteWAL of the name WAL ; initNewMNameWAL ;
+  AddMetricsMetaEntry.
+Only the disk matters afterwards: the .mnm files, the WAL files, the name WAL.  With more steps than there are the
+rotation runs to its end (`rotateSegment`; the meta entry is added by `segRotateCrash` on the system). -/
+def rotateSegmentCrashed (m : Nat) (st : WState) : WState :=
+  let k := st.files.length
+  let mnm' := if st.mNames.isEmpty then st.mnm else writeMnm st.seg st.mNames st.mnm      -- FlushMetricNames
+  let s1 := { st with mnm := mnm' }
+  if m = 0 then st
+  else if m ≤ 1 + k then { s1 with files := st.files.drop (m - 1) }
+  else
+    let s2 := { s1 with files := [({ shard := st.shard, seg := st.nextSuffix, blk := 0, idx := 0 }, [])] }   -- initNewDpWal
+    if m = 2 + k then s2
+    else { s2 with nameWal := [], pendNames := [] }          -- the name WAL is gone (or new and empty)
+
+/-- the number of steps of rotateSegment -/
+def rotateSegmentSteps (st : WState) : Nat := 5 + st.files.length
+
+/-- one size-triggered CheckAndRotate(false) that dies after `m` completed steps of rotateSegment -/
+def segRotateCrashShard (m : Nat) (st : WState) : WState :=
+  if !st.segHasData then st
+  else
+    let st1 := if st.cur.isEmpty then st else rotateBlock st
+    if m ≥ rotateSegmentSteps st1 then rotateSegment st1 else rotateSegmentCrashed m st1
 
 inductive RecAction where
   | delete (name : Name)                 -- deleteWalFile completed
@@ -560,5 +609,17 @@ def metaFlushCrashOld (m : Nat) (s : Sys) : Sys :=
 Steps: OpenFile, writeBlockToFile, Sync, Rename.  Died before the Rename completed: the WAL is unchanged. -/
 def metaFlushCrash (m : Nat) (s : Sys) : Sys :=
   if m < 4 then s else { s with metaWal := s.shards.map metaOf }
+
+/-- the segment rotation of shard 0 dies after `m` steps of rotateSegment (one shard); the meta entry is in
+metricmeta.json only when the last step (AddMetricsMetaEntry) has completed -/
+def segRotateCrash (cap m : Nat) (s : Sys) : Sys :=
+  match s.shards[0]? with
+  | none => s
+  | some st =>
+    if !st.segHasData then s
+    else
+      let st1 := if st.cur.isEmpty then st else rotateBlock st
+      if m ≥ rotateSegmentSteps st1 then sysStep cap s (.shard 0 .segRotate)
+      else { s with shards := modifyNth (segRotateCrashShard m) 0 s.shards }
 
 end SigModel.WalRecover
